@@ -45,11 +45,14 @@ P = {
   text="Per-path abstract interpretation ({Empty, MaybeNonEmpty} per field of the method struct, refined on is_empty/is_some branch edges) "
        "of every acyclic MIR path of commit, finish and back-space in both methods: every terminating exit must leave every composition field "
        "empty; the session flag is extracted as a truth table over the session-defining fields; idle back-space must be inert and every other "
-       "back-space must shrink the session state. Decides the 'erases every trace' and 'flag tells the truth' clauses structurally; the "
-       "differential 'behaves like new' clause only as far as 'all composition fields are empty'.",
+       "back-space must shrink the session state; every non-terminating exit of key / back-space / update keeps the invariant "
+       "(session flag true) ∨ (every composition field empty), and hands out a non-empty suggestion only with the flag provably true; a back-space "
+       "that keeps the session returns something that cannot be empty (lists: C02.R3; single strings: non-empty text, okkhor's erasing patterns from "
+       "its pinned source); every back-space path feasible with ctrl held ends the word. Decides the 'erases every trace' and 'flag tells the truth' "
+       "clauses structurally; the differential 'behaves like new' clause only as far as 'all composition fields are empty'.",
   note="Trusted: rustc MIR; std String/Vec/Option method semantics as classified in the rule (clear/take empty, push grows, pop shrinks). "
        "Non-composition state that legitimately survives (memo, learned selections) is C05/C09's subject.",
-  technique="path-sensitive field-state dataflow over MIR + truth-table extraction + sibling belief consistency",
+  technique="path-sensitive field-state dataflow over MIR (Empty / NonEmpty / unknown, session-flag edges) + invariant preservation per exit + truth-table extraction",
   ref="§4 C06, §3 A8"),
  "C16": dict(
   text="Truth table of the English-option getter; dominance with polarity of every emoji / raw-text push by the ANSI or masked-English guard "
@@ -94,7 +97,9 @@ P = {
        "stale index), agreement of path getter and (de)serialised type between the constructor's reader and the commit's writer, a truncating "
        "write, the constants and sources of the two split calls (key: buffer/false, value: committed list entry/true) and of the look-up, the "
        "look-up order, and set inclusion between the characters the wrapping stage can add (quoter constants from MIR, okkhor's punctuation images "
-       "from its pinned source) and the splitter's punctuation set. Decides the structural necessary conditions of the round trip.",
+       "from its pinned source) and the splitter's punctuation set; a loop-carried-string analysis shows that the text looked up for a suffixed "
+       "word is the join of one base with one suffix, and a reachability rule that no wrapping punctuation reaches a value the look-up memoises in "
+       "the learned map. Decides the structural necessary conditions of the round trip.",
   note="Trusted: serde_json round-trips a string map; std::fs::write truncates; rustc MIR. The `,,` joiner image is a recorded known finding. "
        "Atomicity of the save across crash points is not decided (C10 decides load tolerance).",
   technique="dominance/guard analysis + who-may-write + writer/reader agreement + constant/provenance rule + alphabet set inclusion",
@@ -116,7 +121,8 @@ P = {
        "on the complete stored layout value; call-graph reachability shows that no object built at creation and kept across update-engine reads an "
        "option getter, and no option value is stored in a method struct; the fields read while a memo entry is computed are discovered from the "
        "code and every later reassignment of one must be accompanied by a full HashMap::clear of the memo on the same path; every event passes "
-       "the context's own config. Decides the structural preconditions of 'equals re-creating'; not full behavioural equivalence.",
+       "the context's own config; the stored modification time (the reload gate) advances only on paths that also replace the auto-correct map. "
+       "Decides the structural preconditions of 'equals re-creating'; not full behavioural equivalence.",
   note="Trusted: rustc MIR and trait resolution. Learned selections are not re-read on update and a deleted (rather than edited) auto-correct file is "
        "not noticed — outside the decided clauses.",
   technique="must-pass-through/dominance + call-graph reachability to option getters + derived-data invalidation rule (discovered dependency)",
@@ -151,7 +157,9 @@ P = {
        "buffer; the suffix-bytes idiom of the internal back-space (truncate(len() − Σ len_utf8 over chars().rev().take(n))). Value-identity "
        "dataflow shows the tail saved (skip(len − step)) and the tail removed (back-space(step)) use the same step on the same text with no write "
        "in between, followed by exactly push(র), push(্), push_str(tail); the not-moveable branch appends exactly র্; the routine is gated by "
-       "exactly value == \"র্\" ∧ option and the processor returns right after. Decides 'loses nothing' and 'never crashes'; not where the reph lands.",
+       "exactly value == \"র্\" ∧ option and the processor returns right after; every character class the mobility test accepts is a subset of "
+       "the characters the scan classifies (sets evaluated from the predicates' MIR) — a necessary condition of the placement clause. Decides "
+       "'loses nothing' and 'never crashes'; of 'where the reph lands' only that necessary condition.",
   note="Trusted: rustc MIR; std String/Chars semantics as summarised. The placement clause (right-to-left scan with four flags) is value-level and is "
        "declined; the two misplacements the property text mentions are outside static reach.",
   technique="panic-site obligations with pattern discharge rules + value-identity dataflow + ordered who-may-write + guard dominance",
@@ -175,9 +183,12 @@ P = {
        "ে+ৌ/ৗ→ৌ); a frame rule: on option-on paths where none of the feature's situations applies (capture, fusion, pending sign present, hasanta/fola "
        "after a left-standing sign) the effects must equal the option-off rule list; the pending sign is read only by processor / session flag / "
        "back-space / resets (never rendered), is tested by the session flag, and every back-space path with a pending sign discards it without "
-       "popping the text. Decides the state machine's per-key structure; not the multi-key equivalence with Unicode-order typing.",
+       "popping the text; and (R7) every one of the ~400 feasible option-on paths is compared, effect list by effect list, with a three-valued "
+       "evaluation of an independent transcription of the whole old-order rule list (capture, fusion, re-attach before/after a conjunct, hasanta / "
+       "fola slipping under a placed sign, fall-through to the ordinary rules), unknown conditions failing closed. Decides the state machine's "
+       "per-key structure; not the multi-key equivalence with Unicode-order typing.",
   note="Trusted: rustc MIR. The for-all-words equivalence of the composed text is a statement about sequences of keys and is declined.",
-  technique="symbolic path summaries: map extraction, frame rule against the option-off rule list, who-reads analysis, field-state paths of back-space",
+  technique="symbolic path summaries checked against a three-valued evaluation of an independent rule list (option-on fragment); map extraction; who-reads analysis; field-state paths of back-space",
   ref="§4 C14"),
  "C15": dict(
   text="In the fixed list builder: the composed word (word() of the split composition buffer) is pushed first-ranked unconditionally right after the "
